@@ -24,10 +24,10 @@ require (
 	github.com/DistCompiler/pgo/test/files/general/bug_119.tla.gotests v0.0.0
 	github.com/DistCompiler/pgo/test/files/general/hello.tla.gotests v0.0.0
 	github.com/anishathalye/porcupine v1.3.0
+	github.com/benbjohnson/immutable v0.4.3
 )
 
 require (
-	github.com/benbjohnson/immutable v0.4.3 // indirect
 	github.com/cespare/xxhash v1.1.0 // indirect
 	github.com/cespare/xxhash/v2 v2.3.0 // indirect
 	github.com/dgraph-io/badger/v3 v3.2103.5 // indirect
